@@ -510,6 +510,28 @@ def long_symlinks(cfg, rng, lo=None):
     return ops, {}
 
 
+def symlink_ce_release(cfg, rng):
+    """Rock Ridge symlinks (and long-named files) whose entries live in a continuation area, removed again by rm_file
+    and by rm_hard_link in changing order: every continuation entry and every continuation block that the adds took
+    must be released (declared size = end of the layout), gaps must be reused by later adds"""
+    if not cfg.rr:
+        return None
+    ops = []
+    n = rng.randrange(9, 14)
+    for k in range(n):
+        tgt = '/'.join(['x' * rng.randrange(30, 60)] * rng.randrange(5, 9))
+        ops.append({'k': 'add_symlink_rr', 'iso': '/' + file_ident(cfg, k, 8), 'rr': 'sym%d' % k, 'target': tgt})
+    order = list(range(n))
+    rng.shuffle(order)
+    all_gone = rng.random() < 0.6       # then no continuation block may remain
+    keep = 0 if all_gone else rng.randrange(1, 3)
+    for j, k in enumerate(order[:n - keep]):
+        ops.append({'k': 'rm_file' if j % 3 else 'rm_link', 'ns': 'iso', 'path': '/' + file_ident(cfg, k, 8)})
+    for k in range(n, n + (0 if all_gone else rng.randrange(0, 3))):
+        ops.append({'k': 'add_symlink_rr', 'iso': '/' + file_ident(cfg, k, 8), 'rr': 'sym%d' % k, 'target': 't' * 200 + '/u'})
+    return ops, {}
+
+
 def udf_fid_exact(cfg, rng):
     """UDF directory whose File Identifier Descriptors end exactly on a 2048-byte boundary, with more entries after it:
     parent FID 40 bytes, names of 2..5 bytes -> 44, names of 6..9 bytes -> 48: 40 + 2*44 + 40*48 = 2048"""
@@ -588,6 +610,7 @@ RECIPES = {
     'multi_name_file': lambda cfg, rng: multi_name_file(cfg, rng),
     'deep_tree': lambda cfg, rng: deep_tree(cfg, rng),
     'long_symlinks': lambda cfg, rng: long_symlinks(cfg, rng),
+    'symlink_ce_release': lambda cfg, rng: symlink_ce_release(cfg, rng),
     'udf_fid_cross': lambda cfg, rng: udf_fid_cross(cfg, rng),
     'udf_fid_churn': lambda cfg, rng: udf_fid_churn(cfg, rng),
     'udf_fid_exact': lambda cfg, rng: udf_fid_exact(cfg, rng),
